@@ -188,7 +188,7 @@ impl Session {
             peer_sess_id: 0,
             local_sess_id: 0,
             msg_ctr: msg_ctr & MATTER_MSG_CTR_RANGE,
-            rx_ctr_state: RxCtrState::new(0),
+            rx_ctr_state: RxCtrState::unsynced(),
             mode: SessionMode::PlainText,
             exchanges: Vec::new(),
             last_use: Instant::now(),
@@ -223,7 +223,7 @@ impl Session {
             peer_sess_id: 0,
             local_sess_id: 0,
             msg_ctr: msg_ctr & MATTER_MSG_CTR_RANGE,
-            rx_ctr_state: RxCtrState::new(0),
+            rx_ctr_state: RxCtrState::unsynced(),
             mode: SessionMode::PlainText,
             exchanges <- Vec::init(),
             last_use: Instant::now(),
